@@ -218,11 +218,26 @@ func mix(x uint64) uint64 {
 	return x
 }
 
+// SeedMix perturbs the generic value generator (set from VERIF_SEED; 0 for the
+// default seed 1). The enumerated configuration space is the same for every
+// seed; only the irregular values change.
+var SeedMix uint64
+
+// SetSeed derives SeedMix from the run's seed.
+func SetSeed(seed int64) {
+	if seed == 1 {
+		SeedMix = 0
+		return
+	}
+	SeedMix = mix(uint64(seed) * 0x9e3779b97f4a7c15)
+}
+
 // Generic fills a tensor with irregular, pairwise distinct values whose
 // absolute values lie in [lo,hi] and are separated by at least (hi-lo)/(4N);
 // signs are mixed when neg is set. Different salts give independent
 // assignments. The values are a deterministic function of (shape, salt).
 func Generic(shape []int, salt uint64, lo, hi float64, neg bool) *ref.T {
+	salt ^= SeedMix
 	t := ref.New(shape)
 	n := len(t.V)
 	if n == 0 {
